@@ -171,7 +171,7 @@ def c12(chk):
                 "(wrong pair, amplitude out of range, squeezing phase); each is compiled with Xstrict / Xunitary / Xcov. Non-trivial = source "
                 "with an interferometer or squeezing; distinct by (source, compiler).")
     chk.assumptions = ["refusing (CircuitError / ValueError) is never an alarm; photon statistics compared on all patterns with <= 2 photons "
-                       "(state.fock_prob of the Gaussian state object); time-domain devices (TDM / TD2 / Borealis) and add_loss are not covered"]
+                       "(state.fock_prob of the Gaussian state object)"]
     plans = [(2, 1)] if tier == "quick" else [(2, 2), (3, 1)]
     for (np_, L) in plans:
         r = chk.tlc("MC_Device", constants={"NP": np_, "Len0": L, "EMIT": True}, invariants=["StateOK", "EmitInv"], timeout=3000)
@@ -255,4 +255,7 @@ def c12(chk):
         if sum(accepted.values()) == 0:
             raise common.MachineryError("vacuous: no source program was accepted by any X compiler for %d pairs (layout mismatch?)" % np_)
         chk.sample({"pairs": np_, "layout": layout(np_)[:300], "accepted": accepted})
+    # time-domain loop devices
+    from . import p_borealis
+    p_borealis.borealis(chk)
     chk.exhaustive = tier != "quick"
